@@ -240,6 +240,7 @@ class H2Drive:
         self.wire_events_at: List[int] = []
         self.skipped: List[dict] = []
         self.runaway = False
+        self.same_pick = 0
         self.in_closed: Dict[str, int] = {}
         self.ghost_at: Optional[int] = None
         self.client_rst: List[int] = []
@@ -310,7 +311,11 @@ class H2Drive:
                 self.note_id(op[k])
         if self.runaway:
             return                      # already reported; the rest of the run is not recorded
-        if len(self.ops) > OP_BUDGET:
+        if self.ops and op.get("op") in ("pick", "pickRaise") and self.ops[-1] == op:
+            self.same_pick += 1         # the same stream picked again with nothing in between: no progress is being made
+        else:
+            self.same_pick = 0
+        if len(self.ops) > OP_BUDGET or self.same_pick > 60:
             self.runaway = True
             raise Runaway(f"more than {OP_BUDGET} ops; last: {self.ops[-3:]}")
         self.snaps.append(self.snapshot())
